@@ -247,7 +247,7 @@ theorem degE_degExpr (δ : VName → Nat) (env : DegEnv) : ∀ e, degE δ (degEx
   | .upd a v access rhe => by
     unfold degExpr
     simp only [degE, degAs_degAccs δ env access _, degE_degExpr δ env rhe]
-  | .phi a args => by unfold degExpr; simp [degE]
+  | .phi a args => by unfold degExpr; split <;> simp [degE]
 theorem degEs_degExprs (δ : VName → Nat) (env : DegEnv) : ∀ (es : Exprs) (c : Bool), degEs δ (degExprs env es c).1 = degEs δ es
   | .nil, c => by unfold degExprs; rfl
   | .cons e r, c => by
@@ -629,8 +629,10 @@ theorem degExpr_sound (δ : VName → Nat) (F : VName → Prop) (env : DegEnv) (
       · exact Nat.le_refl _
     · cases hR
   | .phi a args, h => by
-    unfold SoundD at h
     unfold degExpr
+    split
+    · exact h
+    unfold SoundD at h
     simp only
     unfold SoundD claimD
     simp only [dann_phi, degE]
